@@ -184,7 +184,7 @@ Proof.
       * rewrite X. apply downs_sub_keeps. apply keeps_refl.
     + destruct (leave_group_own m w) as [X|X]; [intro Y; congruence|rewrite X; reflexivity].
   - destruct (c_group (w_cl w m)) as [g|]; cbn [fst] in *; [|apply own_ok_keeps; apply keeps_refl].
-    destruct (keeps_enq_all_notin m (others (upd_cl m (set_req req) w) n m) (AReqConns n m 0)
+    destruct (keeps_enq_all_notin m (others (upd_cl m (set_req req) w) g m) (AReqConns g m 0)
                 (upd_cl m (set_req req) w) (not_in_others _ _ _)) as [A [B [C [D _]]]].
     split; [|split].
     + exists []. rewrite app_nil_r, B. rewrite upd_cl_same. reflexivity.
